@@ -245,7 +245,7 @@ def byte_strings(draw):
 
 
 from props.ble_layers import C15_BLE_LAYERS  # noqa: E402
-from props.coap_layers import C15_COAP_LAYERS  # noqa: E402
+from props.coap_layers import C15_COAP_LAYERS, C15_IP_LAYERS  # noqa: E402
 
 
 def fuzz_target(data, R):
@@ -286,6 +286,7 @@ SPEC = Property(
         Layer("bytes-gen", run_bytes, strategy=byte_strings, n={"quick": 6000, "thorough": 200000}, min_nontrivial=500),
         *C15_BLE_LAYERS,
         *C15_COAP_LAYERS,
+        *C15_IP_LAYERS,
         Layer("bytes-atheris", run_fuzz, enumerate=lambda tier: iter([{"corpus": "empty", "runs": 1000000}, {"corpus": "seeded", "runs": 1000000}]), tiers=("thorough",),
               space="two libFuzzer campaigns of 1M executions (empty corpus / corpus of valid encodings), oracle inside the target"),
     ],
